@@ -1,2 +1,280 @@
--- stub: replaced by the wal engine driver
-def main : IO Unit := pure ()
+/-
+Line-protocol driver for the WAL engine (C13 torn tails, C14 bit flips).
+Reply format: `<model>\t<spec>`; spec patterns: `*` anything, `a|b` alternatives, `pre*` prefix.
+
+The *model* column runs `NoKVModel/Wal/*` with the configuration of the `cfg` line and the real
+CRC-32C.  The *spec* column is computed from a ghost log kept here (records appended, minus
+those a cut removed; after a bit flip: any prefix of the original records, any status) and
+never from the decoder model.
+-/
+import Driver.Lib
+import NoKVModel.Wal.Crc
+import NoKVModel.Wal.Record
+import NoKVModel.Wal.Manager
+import NoKVModel.Wal.Entry
+import NoKVModel.Wal.Flip
+
+open NoKV NoKV.Wal Driver
+
+structure GRec where
+  seg : Nat
+  endOff : Nat
+  r : Rec
+
+structure GEnt where
+  off : Nat
+  len : Nat
+  e : Entry
+
+structure St where
+  c : WalCfg := WalCfg.good
+  ec : EntCfg := EntCfg.good
+  segs : List Seg := []
+  mgr : Option Nat := none
+  ghost : List GRec := []          -- oldest first
+  flips : List Nat := []           -- currently flipped bit positions of the newest segment
+  needVerify : Bool := false       -- a cut happened and VerifyDir has not run since
+  loose : Bool := false            -- records were appended to an unverified cut log: no claim
+  buf : Bytes := []
+  ents : List GEnt := []           -- oldest first
+  bflips : List Nat := []          -- currently flipped bit positions of `buf`
+
+def toggle (x : Nat) (l : List Nat) : List Nat :=
+  if l.contains x then l.filter (· ≠ x) else x :: l
+
+def flipBit (b : Bytes) (bit : Nat) : Bytes := flipBitAt b bit
+
+def hash32 (b : Bytes) : Nat := b.foldl (fun h x => (h * 31 + x) % 4294967296) 7
+
+def bytesStr (b : Bytes) : String :=
+  if b.length ≤ 16 then b.toHex else s!"#{b.length}.{hash32 b}"
+
+def recStr (r : Rec) : String := s!"{r.typ}:{bytesStr r.payload}"
+
+def genPayload (len seed : Nat) : Bytes :=
+  (List.range len).map (fun i => (seed + i * 31 + i / 251) % 256)
+
+def statusStr : Status → String
+  | .ok => "ok" | .badcrc => "badcrc" | .empty => "other" | .part => "partial"
+
+def join (l : List String) : String := ",".intercalate l
+
+/-- every prefix of `l` rendered as `r1,…,rk;*`, joined with `|` -/
+def prefixAlts (l : List String) : String :=
+  let n := l.length
+  "|".intercalate ((List.range (n + 1)).map (fun k => join (l.take k) ++ ";*"))
+
+def setCfg (st : St) (kv : String) : Option St :=
+  match kv.splitOn "=" with
+  | [k, v] =>
+    match k with
+    | "wal.shortHeader" =>
+        if v == "partial" then some { st with c := { st.c with shortHeaderPartial := true } }
+        else if v == "eof" then some { st with c := { st.c with shortHeaderPartial := false } }
+        else none
+    | "wal.verifyOnPartial" =>
+        if v == "truncate" then some { st with c := { st.c with verifyTruncPartial := true } }
+        else if v == "ignore" then some { st with c := { st.c with verifyTruncPartial := false } }
+        else none
+    | "wal.verifyStep" => do let n ← natOf? v; pure { st with c := { st.c with verifyStep := n } }
+    | "wal.replayOnPartial" =>
+        if v == "stop" then some { st with c := { st.c with replayPartialOk := true } }
+        else if v == "error" then some { st with c := { st.c with replayPartialOk := false } }
+        else none
+    | "wal.crcChecked" => do let b ← boolOfString? v; pure { st with c := { st.c with crcChecked := b } }
+    | "ent.sliceCrcChecked" => do let b ← boolOfString? v; pure { st with ec := { st.ec with sliceCrcChecked := b } }
+    | "ent.streamCrcChecked" => do let b ← boolOfString? v; pure { st with ec := { st.ec with streamCrcChecked := b } }
+    | _ => if k.startsWith "wal." || k.startsWith "ent." || k.startsWith "crc." || k.startsWith "vlog." then some st else none
+  | _ => none
+
+def headSize (segs : List Seg) : Nat :=
+  match segs with
+  | [] => 0
+  | s :: _ => s.data.length
+
+def headId (segs : List Seg) : Nat :=
+  match segs with
+  | [] => 0
+  | s :: _ => s.id
+
+/-- one append on the model + ghost; returns the EntryInfo string -/
+def doAppend (st : St) (segSize : Nat) (r : Rec) : St × String :=
+  let segs' := appendRec crc32c segSize st.segs r
+  let id := headId segs'
+  let endOff := headSize segs'
+  let off := endOff - encLen r
+  ({ st with segs := segs', ghost := st.ghost ++ [⟨id, endOff, r⟩], loose := st.loose || st.needVerify },
+   s!"{id}:{off}:{r.payload.length + 1}:{r.typ}")
+
+def infoStrs (l : List (Nat × Rec)) : List String :=
+  let rec go (cur off : Nat) : List (Nat × Rec) → List String
+    | [] => []
+    | (id, r) :: rest =>
+      let off' := if id = cur then off else 0
+      s!"{id}.{off'}.{r.payload.length + 1}.{r.typ}" :: go id (off' + r.payload.length + 1 + 8) rest
+  go 0 0 l
+
+def entStr (e : Entry) : String := s!"{e.key.toHex}:{bytesStr e.value}:{e.mt}:{e.exp}"
+
+def eerrStr : EErr → String
+  | .eof => "eof" | .part => "partial" | .ueof => "ueof" | .badcrc => "badcrc" | .other => "other"
+
+def flippedBytes (fl : List Nat) : List Nat := fl.map (· / 8)
+
+def entTouched (st : St) (g : GEnt) : Bool :=
+  (flippedBytes st.bflips).any (fun p => g.off ≤ p && p < g.off + g.len)
+
+def nth? {α} (l : List α) (i : Nat) : Option α := (l.drop i).head?
+
+def step (st : St) (toks : List String) : St × String :=
+  match toks with
+  | "cfg" :: kvs =>
+    match kvs.foldlM setCfg st with
+    | some st' => (st', "ok")
+    | none => (st, "bad-cfg")
+  -- ------------------------------------------------------------ CRC tie
+  | ["crc", h] =>
+    match bytesOf? h with
+    | some b => (st, s!"{crc32c b}\t*")
+    | none => (st, "bad-op")
+  -- ------------------------------------------------------------ WAL manager
+  | ["w.open", sz] =>
+    match natOf? sz, st.mgr with
+    | some sz, none => ({ st with segs := openSegs st.segs, mgr := some (effSegSize sz) }, "ok\tok")
+    | _, _ => (st, "bad-op")
+  | ["w.close"] =>
+    match st.mgr with
+    | some _ => ({ st with mgr := none }, "ok\tok")
+    | none => (st, "bad-op")
+  | ["w.app", t, h] =>
+    match natOf? t, bytesOf? h, st.mgr with
+    | some t, some p, some sz => let (st', s) := doAppend st sz ⟨t, p⟩; (st', s ++ "\t*")
+    | _, _, _ => (st, "bad-op")
+  | ["w.appg", t, len, seed] =>
+    match natOf? t, natOf? len, natOf? seed, st.mgr with
+    | some t, some len, some seed, some sz =>
+      let (st', s) := doAppend st sz ⟨t, genPayload len seed⟩; (st', s ++ "\t*")
+    | _, _, _, _ => (st, "bad-op")
+  | ["w.batch", spec] =>
+    match st.mgr with
+    | some sz =>
+      let items := spec.splitOn ","
+      let parsed := items.mapM fun it =>
+        match it.splitOn ":" with
+        | [t, len, seed] => do let t ← natOf? t; let len ← natOf? len; let seed ← natOf? seed; pure (⟨t, genPayload len seed⟩ : Rec)
+        | _ => none
+      match parsed with
+      | some rs =>
+        let (st', outs) := rs.foldl (fun (acc : St × List String) r =>
+          let (s', o) := doAppend acc.1 sz r; (s', acc.2 ++ [o])) (st, [])
+        (st', join outs ++ "\t*")
+      | none => (st, "bad-op")
+    | none => (st, "bad-op")
+  | ["w.rotate"] =>
+    match st.mgr with
+    | some _ => ({ st with segs := rotate st.segs }, "ok\tok")
+    | none => (st, "bad-op")
+  | ["w.cut", n] =>
+    match natOf? n, st.mgr with
+    | some n, none =>
+      let n := min n (headSize st.segs)
+      let hid := headId st.segs
+      let segs' := cutHead n st.segs
+      let ghost' := st.ghost.filter (fun g => g.seg ≠ hid || g.endOff ≤ n)
+      ({ st with segs := segs', ghost := ghost', flips := st.flips.filter (fun b => b / 8 < n),
+                 needVerify := true }, s!"sz={n}\t*")
+    | _, _ => (st, "bad-op")
+  | ["w.flip", b] =>
+    match natOf? b, st.mgr with
+    | some b, none =>
+      if b / 8 < headSize st.segs then
+        let segs' := match st.segs with
+          | [] => []
+          | s :: older => ⟨s.id, flipBit s.data b⟩ :: older
+        ({ st with segs := segs', flips := toggle b st.flips }, "ok\t*")
+      else (st, "oob\t*")
+    | _, _ => (st, "bad-op")
+  | ["w.verify"] =>
+    match st.mgr with
+    | none =>
+      let r := verifySegs st.c crc32c st.segs
+      ({ st with segs := r.1, needVerify := if r.2 == .ok then false else st.needVerify },
+       statusStr r.2 ++ "\t" ++ (if st.flips.isEmpty then "ok" else "*"))
+    | some _ => (st, "bad-op")
+  | ["w.segs"] =>
+    (st, join (st.segs.reverse.map (fun s => s!"{s.id}:{s.data.length}")) ++ "\t*")
+  | ["w.replay"] =>
+    match st.mgr with
+    | some _ =>
+      let r := replaySegs st.c crc32c st.segs
+      let m := join (r.1.map recStr) ++ ";" ++ statusStr r.2
+      let g := st.ghost.map (fun g => recStr g.r)
+      let spec := if st.loose then "*" else if st.flips.isEmpty then join g ++ ";ok" else prefixAlts g
+      (st, m ++ "\t" ++ spec)
+    | none => (st, "bad-op")
+  | ["w.replayinfo"] =>
+    match st.mgr with
+    | some _ =>
+      let r := replaySegsInfo st.c crc32c st.segs
+      (st, join (infoStrs r.1) ++ ";" ++ statusStr r.2 ++ "\t*")
+    | none => (st, "bad-op")
+  -- ------------------------------------------------------------ entry records (kv codec, vlog)
+  | ["e.new"] => ({ st with buf := [], ents := [], bflips := [] }, "ok\tok")
+  | ["e.add", k, v, m, x] =>
+    match bytesOf? k, bytesOf? v, natOf? m, natOf? x with
+    | some k, some v, some m, some x =>
+      if st.bflips.isEmpty then
+        let e : Entry := ⟨k, v, m, x⟩
+        let enc := encodeEntry e crc32c
+        let off := st.buf.length
+        ({ st with buf := st.buf ++ enc, ents := st.ents ++ [⟨off, enc.length, e⟩] },
+         s!"{off}:{enc.length}:{bytesStr enc}\t*")
+      else (st, "bad-op")
+    | _, _, _, _ => (st, "bad-op")
+  | ["e.flip", b] =>
+    match natOf? b with
+    | some b =>
+      if b / 8 < st.buf.length then
+        ({ st with buf := flipBit st.buf b, bflips := toggle b st.bflips }, "ok\t*")
+      else (st, "oob\t*")
+    | none => (st, "bad-op")
+  | ["e.slice", i] =>
+    match (natOf? i).bind (nth? st.ents) with
+    | some g =>
+      let data := (st.buf.drop g.off).take g.len
+      let m := match decodeSlice st.ec crc32c data with
+        | .ok v h => s!"ok:{bytesStr v}:{h.klen}:{h.vlen}:{h.mt}:{h.exp}"
+        | .err e => "err:" ++ eerrStr e
+      let spec := if entTouched st g then "err:*"
+        else s!"ok:{bytesStr g.e.value}:{g.e.key.length}:{g.e.value.length}:{g.e.mt}:{g.e.exp}"
+      (st, m ++ "\t" ++ spec)
+    | none => (st, "bad-op")
+  | ["e.iter"] =>
+    let r := iterEntries st.ec crc32c st.buf
+    let m := join (r.1.map (fun p => entStr p.1 ++ s!":{p.2}")) ++ ";" ++ eerrStr r.2
+    let g := st.ents.map (fun g => entStr g.e ++ s!":{g.len}")
+    let spec := if st.bflips.isEmpty then join g ++ ";eof" else prefixAlts g
+    (st, m ++ "\t" ++ spec)
+  -- real value-log file = 20 zero bytes ++ buf (harness builds it with vlog.Manager)
+  | ["v.load"] => (st, s!"ok:{20 + st.buf.length}\t*")
+  | ["v.read", i] =>
+    match (natOf? i).bind (nth? st.ents) with
+    | some g =>
+      let data := (st.buf.drop g.off).take g.len
+      let m := match decodeSlice st.ec crc32c data with
+        | .ok v _ => s!"ok:{bytesStr v}"
+        | .err e => "err:" ++ eerrStr e
+      let spec := if entTouched st g then "err:*" else s!"ok:{bytesStr g.e.value}"
+      (st, m ++ "\t" ++ spec)
+    | none => (st, "bad-op")
+  | ["v.iter"] =>
+    let r := iterEntries st.ec crc32c st.buf
+    let status := match r.2 with
+      | .eof => "ok" | .part => "ok" | .badcrc => "ok" | .ueof => "err" | .other => "err"
+    let m := join (r.1.map (fun p => entStr p.1 ++ s!":{p.2}")) ++ ";" ++ status
+    let g := st.ents.map (fun g => entStr g.e ++ s!":{g.len}")
+    let spec := if st.bflips.isEmpty then join g ++ ";ok" else prefixAlts g
+    (st, m ++ "\t" ++ spec)
+  | _ => (st, "bad-op")
+
+def main : IO Unit := Driver.loop ({} : St) step
